@@ -11,7 +11,7 @@
 
   Global correctness (section "T2: global correctness of the Graham scan"):
     grahamHull_isStrictHull_exact   — proved in full for exact scalar types (`rnd = id`)
-    grahamHull_isStrictHull_partial — any rounding, under `DistExactAll` (rounded squared distances
+    grahamHull_isStrictHull_partial — any rounding, under `DistExactPivot` (rounded squared distances
                                       order points collinear with the pivot like the exact ones)
     quickHull_isStrictHull_partial  — proved when the Graham fallback is taken; when quick-hull keeps
                                       its own ring, containment of that ring is a hypothesis
@@ -21,7 +21,7 @@
     theorem grahamHull_isStrictHull (pts) : hasTriangle pts → isStrictHull (grahamHull rnd pts false) pts
       (as stated, for an *arbitrary* function `rnd`, this is false: a rounding that maps every
       distance to 0 lets a nearer collinear point follow a farther one, and the scan drops the
-      farther one; see `DistExactAll`)
+      farther one; see `DistExactPivot`)
 -/
 import GeoModel.Hull
 import GeoProofs.Lemmas.C08Mem
@@ -31,6 +31,7 @@ import GeoProofs.Lemmas.C08QSort
 import GeoProofs.Lemmas.C08QScan
 import GeoProofs.Lemmas.C08QHull
 import GeoProofs.Lemmas.C08QQuick
+import GeoProofs.Lemmas.C08QRound
 import Mathlib.Tactic.Linarith
 import Mathlib.Tactic.Ring
 
@@ -673,39 +674,76 @@ theorem graham_pass_global_partial (p₀ : Pt) (l : List Pt)
   · subst hx; exact Inside.of_mem (by simp)
   · exact hall x hx
 
-/-- the rounded squared distances order points collinear with a pivot like the exact ones (all
-that the scan needs from the arithmetic of the scalar type) -/
-def DistExactAll (rnd : Rat → Rat) (pts : List Pt) : Prop :=
-  ∀ o ∈ pts, ∀ q ∈ pts, ∀ r ∈ pts, cross o q r = 0 →
-    (dist2r rnd o q ≤ dist2r rnd o r ↔ dist2 o q ≤ dist2 o r)
+/-- [T] exact scalar types satisfy `DistExactPivot` (seen from the pivot, rounded squared distances
+order collinear points like the exact ones — all the scan needs from the scalar arithmetic). -/
+theorem distExactPivot_exact (pts : List Pt) : DistExactPivot id pts := distExactPivot_id pts
 
-/-- [T] exact scalar types satisfy it -/
-theorem distExactAll_id (pts : List Pt) : DistExactAll id pts :=
-  fun o _ q hq r hr h => distExact_id o pts q hq r hr h
+/-- [T] so does every monotone rounding that fixes 0 on inputs without a distance tie: two
+coordinates collinear with a third get the same rounded squared distance from it only if they are
+equally far. -/
+theorem distExactPivot_monotone (rnd : Rat → Rat) (hmono : ∀ x y, x ≤ y → rnd x ≤ rnd y)
+    (h0 : rnd 0 = 0) (pts : List Pt)
+    (hnotie : ∀ o ∈ pts, ∀ q ∈ pts, ∀ r ∈ pts, cross o q r = 0 →
+      dist2r rnd o q = dist2r rnd o r → dist2 o q = dist2 o r) : DistExactPivot rnd pts :=
+  distExactPivot_of_monotone rnd hmono h0 pts hnotie
 
-/-- [Tp] **`grahamHull_isStrictHull`** under `DistExactAll`: for every coordinate list with three
+/-- [Tp] **`grahamHull_isStrictHull`** under `DistExactPivot`: for every coordinate list with three
 non-collinear coordinates the verified checker accepts the model's `graham_hull(.., false)`: the
 ring is closed, turns strictly left at every vertex, its vertices are input coordinates and every
 input coordinate is left of or on every edge.
 (Full statement, false for arbitrary `rnd`:
   `∀ rnd pts, hasTriangle pts → isStrictHull (grahamHull rnd pts false) pts`.) -/
 theorem grahamHull_isStrictHull_partial (rnd : Rat → Rat) (pts : List Pt)
-    (ht : hasTriangle pts = true) (hd : DistExactAll rnd pts) :
+    (ht : hasTriangle pts = true) (hd : DistExactPivot rnd pts) :
     isStrictHull (grahamHull rnd pts false) pts = true := by
   by_cases hl : pts.length < 4
   · exact (small_hull_correct rnd pts ht hl).2.1
   · apply grahamHull_correct_of_distExact rnd pts hl ht
     have hne : pts ≠ [] := by intro h; simp [h] at hl
     intro q hq r hr
-    exact hd _ (swapRemove_fst_mem _ _ hne) q (swapRemove_snd_subset _ _ q hq) r
+    exact hd _ (swapRemove_fst_mem _ _ hne) (pivot_least pts) q (swapRemove_snd_subset _ _ q hq) r
       (swapRemove_snd_subset _ _ r hr)
+
+/-- [Tp] **`grahamHull_isStrictHull`, rounding scalar types**: for a monotone rounding that fixes 0
+(the properties of IEEE round-to-nearest; not proved here for the model's `roundF64`) the checker
+accepts `graham_hull(.., false)` on every input that is not in the driver's SKIP class `grahamTie`
+(two distinct coordinates collinear with the pivot with the same rounded squared distance — the
+only inputs where the sorted order depends on `sort_unstable_by`'s internals). -/
+theorem grahamHull_isStrictHull_notie_partial (rnd : Rat → Rat)
+    (hmono : ∀ x y, x ≤ y → rnd x ≤ rnd y) (h0 : rnd 0 = 0) (pts : List Pt)
+    (ht : hasTriangle pts = true)
+    (hnt : grahamTie rnd (swapRemove pts (leastIndex pts)).1 (swapRemove pts (leastIndex pts)).2 = false) :
+    isStrictHull (grahamHull rnd pts false) pts = true := by
+  by_cases hl : pts.length < 4
+  · exact (small_hull_correct rnd pts ht hl).2.1
+  · apply grahamHull_correct_of_distExact rnd pts hl ht
+    apply distExact_of_monotone rnd hmono h0
+    · intro x hx
+      rcases lexLt_tricho x _ (pivot_least pts x (swapRemove_snd_subset _ _ x hx)) with h | h
+      · exact Or.inl h
+      · exact Or.inr ((inH_iff_lexLt _ x).2 h)
+    · intro q hq r hr hc hdd
+      rw [grahamTie_false hnt q hq r hr hc hdd]
+
+/-- a rounding to multiples of 1/2 … (floor): monotone, fixes 0; concrete instance -/
+example : isStrictHull
+    (grahamHull (fun x => (Rat.floor (2 * x) : Rat) / 2) [⟨1, 1⟩, ⟨2, 0⟩, ⟨0, 0⟩, ⟨2, 2⟩, ⟨0, 2⟩] false)
+    [⟨1, 1⟩, ⟨2, 0⟩, ⟨0, 0⟩, ⟨2, 2⟩, ⟨0, 2⟩] = true := by
+  apply grahamHull_isStrictHull_notie_partial
+  · intro x y h
+    have : Rat.floor (2 * x) ≤ Rat.floor (2 * y) := Rat.floor_monotone (by linarith)
+    have : ((Rat.floor (2 * x) : Int) : Rat) ≤ ((Rat.floor (2 * y) : Int) : Rat) := by exact_mod_cast this
+    linarith
+  · decide +kernel
+  · decide +kernel
+  · decide +kernel
 
 /-- [T] **`grahamHull_isStrictHull`, exact scalar types** (`rnd = id`; `i64` without overflow):
 the Graham scan of the model returns the strict convex hull, for all inputs with three
 non-collinear coordinates — duplicates, collinear runs and any input order included. -/
 theorem grahamHull_isStrictHull_exact (pts : List Pt) (ht : hasTriangle pts = true) :
     isStrictHull (grahamHull id pts false) pts = true :=
-  grahamHull_isStrictHull_partial id pts ht (distExactAll_id pts)
+  grahamHull_isStrictHull_partial id pts ht (distExactPivot_id pts)
 
 example : isStrictHull
     (grahamHull id [⟨1, 1⟩, ⟨2, 0⟩, ⟨0, 0⟩, ⟨1, 0⟩, ⟨2, 2⟩, ⟨0, 2⟩, ⟨0, 0⟩, ⟨0, 1⟩] false)
@@ -713,16 +751,16 @@ example : isStrictHull
   grahamHull_isStrictHull_exact _ (by decide +kernel)
 
 /-- [Tp] **`graham_contains`**: every input coordinate is left of or on every edge of the ring of
-`graham_hull(.., false)` (≥ 3 non-collinear coordinates, `DistExactAll`). -/
+`graham_hull(.., false)` (≥ 3 non-collinear coordinates, `DistExactPivot`). -/
 theorem graham_contains_partial (rnd : Rat → Rat) (pts : List Pt) (ht : hasTriangle pts = true)
-    (hd : DistExactAll rnd pts) :
+    (hd : DistExactPivot rnd pts) :
     ∀ p ∈ pts, ∀ e ∈ edges (grahamHull rnd pts false), 0 ≤ cross e.1 e.2 p :=
   isStrictHull_contains _ _ (grahamHull_isStrictHull_partial rnd pts ht hd)
 
 /-- [T] `graham_contains` for exact scalar types -/
 theorem graham_contains_exact (pts : List Pt) (ht : hasTriangle pts = true) :
     ∀ p ∈ pts, ∀ e ∈ edges (grahamHull id pts false), 0 ≤ cross e.1 e.2 p :=
-  graham_contains_partial id pts ht (distExactAll_id pts)
+  graham_contains_partial id pts ht (distExactPivot_id pts)
 
 /-- [T] the slice handed to the Graham fallback by `quick_hull` has exactly the input coordinates -/
 theorem quickHullRaw_same_coords (rnd : Rat → Rat) (pts : List Pt) (h : 2 ≤ pts.length) :
@@ -730,13 +768,13 @@ theorem quickHullRaw_same_coords (rnd : Rat → Rat) (pts : List Pt) (h : 2 ≤ 
   fun x => ⟨(quickHullRaw_subset rnd pts h).1 x, quickHullRaw_cover rnd pts x⟩
 
 /-- [Tp] **`quickHull_isStrictHull`**: the checker accepts `quick_hull` of the model whenever the
-Graham fallback is taken (proved, under `DistExactAll`) and for fewer than four coordinates
+Graham fallback is taken (proved, under `DistExactPivot`) and for fewer than four coordinates
 (proved); when quick-hull keeps its own ring (it passed `is_strict_ccw_hull`, or has at most three
 coordinates) acceptance of that ring is the hypothesis `hraw`.
 (Full statement: `∀ rnd pts, hasTriangle pts → isStrictHull (quickHull rnd pts) pts`; missing:
 containment for the recursive `hull_set`.) -/
 theorem quickHull_isStrictHull_partial (rnd : Rat → Rat) (pts : List Pt)
-    (ht : hasTriangle pts = true) (hd : DistExactAll rnd pts)
+    (ht : hasTriangle pts = true) (hd : DistExactPivot rnd pts)
     (hraw : 4 ≤ pts.length → quickHull rnd pts = (quickHullRaw rnd pts).2 →
       isStrictHull (quickHullRaw rnd pts).2 pts = true) :
     isStrictHull (quickHull rnd pts) pts = true := by
@@ -750,12 +788,11 @@ theorem quickHull_isStrictHull_partial (rnd : Rat → Rat) (pts : List Pt)
       rw [← isStrictHull_congr _ _ _ hm]
       apply grahamHull_isStrictHull_partial
       · rw [hasTriangle_congr _ _ hm]; exact ht
-      · intro o ho q hq r hr
-        exact hd o ((hm o).1 ho) q ((hm q).1 hq) r ((hm r).1 hr)
+      · exact distExactPivot_congr rnd pts _ hm hd
 
 /-- [Tp] the same for `ConvexHull::convex_hull`. -/
 theorem convexHull_isStrictHull_partial (rnd : Rat → Rat) (pts : List Pt)
-    (ht : hasTriangle pts = true) (hd : DistExactAll rnd pts)
+    (ht : hasTriangle pts = true) (hd : DistExactPivot rnd pts)
     (hraw : 4 ≤ pts.length → quickHull rnd pts = (quickHullRaw rnd pts).2 →
       isStrictHull (quickHullRaw rnd pts).2 pts = true) :
     isStrictHull (convexHull rnd pts) pts = true := by
@@ -764,7 +801,7 @@ theorem convexHull_isStrictHull_partial (rnd : Rat → Rat) (pts : List Pt)
 /-- the F6 input takes the fallback: the hypothesis `hraw` is vacuous there and the theorem gives
 the strict hull -/
 example : isStrictHull (quickHull id f6Input) f6Input = true :=
-  quickHull_isStrictHull_partial id f6Input (by decide +kernel) (distExactAll_id _)
+  quickHull_isStrictHull_partial id f6Input (by decide +kernel) (distExactPivot_id _)
     (fun _ h => absurd h (by decide +kernel))
 
 end Geo.Proofs.C08
